@@ -108,12 +108,20 @@ class Ctx(object):
             self.assume(mono if order == 'mono' else self.NOT(mono))
         return ls
 
-    def cells(self, kind, n, prefix, nan=False):
-        """n data cells. kind f: reals (with nan=True each cell may also be NaN, decided by a symbolic bit)"""
+    def cells(self, kind, n, prefix, nan=False, inf=False):
+        """n data cells. kind f: reals (with nan=True each cell may also be NaN, decided by a symbolic bit; with inf=True each cell
+        may also be +inf or -inf, decided by a symbolic choice)"""
         out = []
         for i in range(n):
             name = "%s%d" % (prefix, i)
             if kind == 'f':
+                if inf:
+                    k = self.choice(name + '_special', 4 if nan else 3)
+                    if k:
+                        out.append([None, float('inf'), float('-inf'), float('nan')][k])
+                        continue
+                    out.append(self.real(name))
+                    continue
                 if nan and self.bool(name + '_isnan'):
                     out.append(float('nan'))
                     if not self.sym:
